@@ -617,6 +617,73 @@ def case_intersect(case):
     return {"v": v[:4], "t": t, "o": repr((n, k, l, case["A"], m, len(Asel))), "nt": True}
 
 
+# composites of rank >= 2: (composite shape of self, composite shape of other)
+PAIRWISE_SHAPES = [[[2, 2], [2]], [[2, 3], [3]], [[2], [2, 2]], [[3], [2, 3]], [[2, 2], [2, 2]], [[3, 2], [2, 2]], [[2, 2], []], [[], [2, 3]],
+                   [[2, 1, 2], [2]], [[2], [2, 1, 2]], [[1, 2], [3]], [[2, 2], [1]]]
+ELEMENTWISE_SHAPES = [[2, 2], [2, 3], [3, 2], [1, 2], [3, 1], [2, 1, 2]]
+
+
+def _independent_subsets(pool, k, off):
+    out = [list(c) for c in itertools.combinations(range(len(pool)), k) if L.exact_rank([pool[j] for j in c]) == k]
+    off = off % len(out) if out else 0
+    return out[off:] + out[:off]
+
+
+@_quiet
+def case_intersect_composite(case):
+    """ONE intersect call on composites of rank >= 2 (self and/or other), pairwise or elementwise; every unit of the
+    result is judged against its own pair: position [i..., j...] of a pairwise result belongs to (self[i...], other[j...]),
+    position [i...] of an elementwise result to (self[i...], other[i...]).  The members of self are pairwise different
+    k-subsets of the pool, those of other pairwise different l-subsets; every pair that meets is transverse (exact)."""
+    from geometry_tools import projective
+    n, k, l, pool, mode, off = case["n"], case["k"], case["l"], case["pool"], case["mode"], case["off"]
+    sa, sb = tuple(case["sa"]), tuple(case["sb"])
+    NA, NB = int(np.prod(sa, dtype=int)), int(np.prod(sb, dtype=int))
+    CA, CB = _independent_subsets(pool, k, off), _independent_subsets(pool, l, 2 * off + 1)
+    rows = lambda c: [pool[j] for j in c]
+    As, Bs = [], []
+    if mode == "pairwise":
+        for cb in CB:
+            if len(Bs) < NB:
+                Bs.append(cb)
+        for ca in CA:
+            if len(As) < NA and all(L.exact_rank(rows(ca) + rows(cb)) == n for cb in Bs):
+                As.append(ca)
+    else:
+        for ca in CA:
+            if len(As) == NA:
+                break
+            for cb in CB:
+                if cb not in Bs and L.exact_rank(rows(ca) + rows(cb)) == n:
+                    As.append(ca)
+                    Bs.append(cb)
+                    break
+    if len(As) < NA or len(Bs) < NB:
+        return {"v": [], "t": 0, "o": "out-of-domain:pool-too-small", "nt": False}
+    A = np.array([rows(c) for c in As], dtype=float).reshape(sa + (k, n))
+    B = np.array([rows(c) for c in Bs], dtype=float).reshape(sb + (l, n))
+    R = np.asarray(projective.Subspace(A.copy()).intersect(projective.Subspace(B.copy()), broadcast=mode).proj_data)
+    where = "%s-rank%dx%d" % (mode, len(sa), len(sb))
+    want = (sa + sb if mode == "pairwise" else sa) + (k + l - n, n)
+    v = []
+    if R.shape != want:
+        v.append(_V("intersect/shape/" + where, "composite shapes %r, %r, dims (%d,%d) in R^%d: result shape %r, expected %r" % (sa, sb, k, l, n, R.shape, want)))
+        return {"v": v, "t": 1, "o": "shape", "nt": True}
+    for i in np.ndindex(*sa):
+        for j in (np.ndindex(*sb) if mode == "pairwise" else [i]):
+            vv = []
+            _check_intersection(vv, A[i], B[j], R[i + j] if mode == "pairwise" else R[i], where)
+            for x in vv:
+                x["msg"] = "composite shapes %r %s %r, unit %r of the result must be self%r meet other%r: %s" % (
+                    sa, mode, sb, list(i + j) if mode == "pairwise" else list(i), list(i), list(j), x["msg"])
+            v += vv
+            if len(v) > 3:
+                break
+        if len(v) > 3:
+            break
+    return {"v": v[:4], "t": 1, "o": repr((n, k, l, mode, sa, sb, len(v))), "nt": True}
+
+
 # ------------------------------------------------------------------------------------------
 # eigenvector / diagonalize
 # ------------------------------------------------------------------------------------------
@@ -1209,6 +1276,26 @@ def run(ctx):
     ctx.product("subspace-intersect", "checks.c16:case_intersect", int_cases,
                 domains={"ambient vector dimension": "2..6", "pool": "standard basis + 1..2 Vandermonde rows (seed rotates the nodes)",
                          "pairs": "every k-subset x every transverse l-subset, k+l >= n (k+l = n: complementary, result has 0 rows)", "broadcast": ["single", "elementwise", "pairwise"]}, chunk=16)
+
+    comp_cases = []
+    for n in range(2, 7):
+        pool = subspace_pool(n, 2, seed)
+        for k in range(1, n + 1):
+            for l in range(1, n + 1):
+                if k + l <= n:
+                    continue               # complementary pairs (0 result rows) have no unit-by-unit content
+                for off in (0, 3):
+                    for sa, sb in PAIRWISE_SHAPES:
+                        comp_cases.append({"n": n, "k": k, "l": l, "pool": pool, "mode": "pairwise", "sa": sa, "sb": sb, "off": off})
+                    for sh in ELEMENTWISE_SHAPES:
+                        comp_cases.append({"n": n, "k": k, "l": l, "pool": pool, "mode": "elementwise", "sa": sh, "sb": sh, "off": off})
+    ctx.product("subspace-intersect-composite", "checks.c16:case_intersect_composite", comp_cases,
+                domains={"ambient vector dimension": "2..6", "dims": "all (k, l) with k + l > n", "pool": "standard basis + 2 Vandermonde rows",
+                         "pairwise (shape of self, shape of other)": PAIRWISE_SHAPES, "elementwise shapes (self = other)": ELEMENTWISE_SHAPES,
+                         "members": "pairwise different k-subsets / l-subsets of the pool (two rotations of the subset list), every meeting pair transverse (exact rank)",
+                         "demand": "result shape; unit [i..., j...] (pairwise) / [i...] (elementwise) lies in self[i...] and in other[j...] and has dimension k + l - n"}, chunk=32)
+    ctx.assume("composite intersections: members of one composite are pairwise different subsets of the pool, so a result unit computed from the wrong pair is, "
+               "in general, not contained in its own pair; combinations for which the pool has too few transverse subsets are skipped (outcome 'out-of-domain')")
 
     eig_cases, eig_batch = [], []
     vals = [1, 2, -1, 3]
